@@ -300,3 +300,53 @@ class Rng(random.Random):
     def dy(self, lo, hi, den):
         """dyadic-grid rational in [lo, hi] with denominator den"""
         return Fraction(self.randint(int(math.ceil(lo * den)), int(math.floor(hi * den))), den)
+
+
+# ---------------------------------------------------------------- generator adequacy: which anchored lines ran
+class LineTracer:
+    """sys.settrace restricted to the anchored functions (DESIGN 3.5).  Frames of other code are not traced."""
+
+    def __init__(self, anchors):
+        self.want = {}      # (abs filename, function name) -> qualified name
+        self.seen = {}      # qualified name -> set of executed line numbers
+        self.codes = {}     # qualified name -> code object
+        for rel, names in anchors:
+            path = os.path.realpath(os.path.join(REPO, rel))
+            for q in names:
+                self.want[(path, q.split(".")[-1])] = f"{rel}:{q}"
+
+    def _global(self, frame, event, arg):
+        co = frame.f_code
+        key = (os.path.realpath(co.co_filename), co.co_name)
+        q = self.want.get(key)
+        if q is None:
+            return None
+        self.codes.setdefault(q, co)
+        seen = self.seen.setdefault(q, set())
+
+        def local(fr, ev, a):
+            if ev == "line":
+                seen.add(fr.f_lineno)
+            return local
+        return local
+
+    def __enter__(self):
+        self._old = sys.gettrace()
+        sys.settrace(self._global)
+        return self
+
+    def __exit__(self, *exc):
+        sys.settrace(self._old)
+        return False
+
+    def report(self):
+        out = {}
+        for (path, name), q in self.want.items():
+            co = self.codes.get(q)
+            if co is None:
+                out[q] = "never called"
+                continue
+            lines = {ln for _, _, ln in co.co_lines() if ln is not None and ln != co.co_firstlineno}
+            missing = sorted(lines - self.seen.get(q, set()))
+            out[q] = missing
+        return out
